@@ -147,6 +147,8 @@ class KdqTreeDetector:
                     else:
                         self.drift_state = "drift"
                         self.ref_data = ary
+                elif input_type == "stream":
+                    self._drift_counter = 0
 
     def _inner_set_reference(self, ary, input_type):
         """
